@@ -418,10 +418,15 @@ func (d *TickDriver) Step(x *Exec, n *Node, i int) StepResult {
 		}
 		nn.M = m
 		out := "FAULT"
+		var soft []*Violation
 		if obs.Halt {
 			out = "HALT:noop"
+			// "updating an unknown candidate ... fails without effect": storage stays, but a success event is an effect
+			if len(obs.Notifs) > 0 && d.Mode == "C07" {
+				soft = append(soft, Viol("unknown-candidate-update-succeeds", fmt.Sprintf("%s on a key in neither list halts and announces %v", d.OpName(n, i), obs.Notifs), map[string]any{"op": o.kind, "state": "offline", "candidate": "unknown"}))
+			}
 		}
-		return StepResult{Next: nn, Outcome: out}
+		return StepResult{Next: nn, Outcome: out, Soft: soft}
 	}
 	if obs.Halt != expHalt {
 		return viol("outcome", fmt.Sprintf("model expects halt=%v, contract halt=%v fault=%q", expHalt, obs.Halt, obs.Fault))
